@@ -69,3 +69,54 @@ def canon_trust(text):
         c = x[4]
         out.append([int(x[1]), int(x[2]), int(x[3]), [int(y) for y in c[1:]]])
     return sorted(out)
+
+
+# ---------------------------------------------------------------------------------------------------------------
+# `certify <crate> <from> <to>`: the audit that is recorded (coq/CertifyCollapse.v: the new delta, or its fold with an
+# adjacent prior audit) against the audit the real command wrote
+
+CERTIFY_IMPORTS = ["Base", "Extracted", "Show", "Criteria", "AuditGraph", "Resolve", "CertifyCollapse", "ShowCollapse"]
+
+
+def certify_case(step, o):
+    """-> (coq expression, what the implementation wrote) for a successful delta certification"""
+    from collections import Counter
+    import oracle as O
+    args = step.args
+    if step.cls != "certify" or step.outcome != "ok" or not step.pre_store or not step.post_store or len(args) < 4:
+        return None
+    pos = []
+    for a in args[2:]:
+        if a.startswith("--"):
+            break
+        pos.append(a)
+    asked = [args[i + 1] for i, a in enumerate(args[:-1]) if a == "--criteria"]
+    tb = o.get("tables") or {}
+    names, vers, crits = tb.get("names") or [], tb.get("versions") or [], tb.get("criteria") or []
+    if len(pos) != 2 or not asked or args[1] not in names or any(v not in vers for v in pos) or any(c not in crits for c in asked):
+        return None
+    ni = names.index(args[1])
+    f, t = vers.index(pos[0]), vers.index(pos[1])
+    table = O.table_of(step.pre_store["store"])
+    if table != O.table_of(step.post_store["store"]):
+        return None
+    new = {"_c": "Build_audit", "a": [{"_c": "KDelta", "a": [f, t]}, [crits.index(c) for c in asked], False, False]}
+    expr = (f"show_certified_entry {coq(step.pre_store['store'])} {ni}%N {coq('@git:' in pos[0])} "
+            f"{coq('--no-collapse' in args)} {coq(new)}")
+
+    def key(a):
+        k, ka, crit, _imp, _fresh = O.audit_fields(a)
+        return (k, tuple(ka), O.bits(O.from_list(table, crit)))
+    pre = Counter(key(a) for a in O.pkg_store(step.pre_store["store"], ni)[1])
+    post = Counter(key(a) for a in O.pkg_store(step.post_store["store"], ni)[1])
+    fresh = sorted((post - pre).elements())
+    if len(fresh) != 1:
+        return None          # nothing new (an identical audit existed) or more than one (oracle_c11's business)
+    k, ka, b = fresh[0]
+    return expr, [{"KFull": "full", "KDelta": "delta"}.get(k, k)] + [int(x) for x in ka] + [b]
+
+
+def canon_certify(text):
+    import vetlib
+    e = vetlib.parse_sexp(text)
+    return [e[1][0]] + [int(x) for x in e[1][1:]] + [int(e[2])]
